@@ -10,7 +10,7 @@
 #include <stdarg.h>
 
 extern void (*yr_verif_on_atom)(uint32_t, const uint8_t*, const uint8_t*, int, int);
-extern void (*yr_verif_on_candidate)(uint32_t, uint64_t);
+extern void (*yr_verif_on_candidate)(uint32_t, uint64_t, uint32_t);
 
 static char* out; static size_t outcap, outlen;
 static void emit(const char* fmt, ...)
@@ -38,10 +38,10 @@ static void on_atom(uint32_t sidx, const uint8_t* bytes, const uint8_t* mask, in
 }
 
 static char* candlog; static size_t candcap, candlen;
-static void on_cand(uint32_t sidx, uint64_t off)
+static void on_cand(uint32_t sidx, uint64_t off, uint32_t backtrack)
 {
   if (candlen + 48 > candcap) { candcap = candcap * 2 + 256; candlog = (char*) realloc(candlog, candcap); }
-  candlen += sprintf(candlog + candlen, "%s%u@%" PRIu64, candlen ? "," : "", sidx, off);
+  candlen += sprintf(candlog + candlen, "%s%u@%" PRIu64 "/%u", candlen ? "," : "", sidx, off, backtrack);
 }
 
 typedef struct { int first_rule; int first_match; } CBST;
@@ -69,7 +69,8 @@ static int scan_cb(YR_SCAN_CONTEXT* ctx, int msg, void* data, void* ud)
     st->first_rule = 0;
     yr_rule_strings_foreach(r, s)
     {
-      yr_string_matches_foreach(ctx, s, m)
+      // walk the list directly: yr_string_matches_foreach hides private matches
+      for (m = ctx->matches[s->idx].head; m != NULL; m = m->next)
       {
         memit("%s%s.%s@%" PRId64 ":%d:%d%s", st->first_match ? "" : ";", r->identifier, s->identifier,
               (int64_t) (m->base + m->offset), m->match_length, (int) m->xor_key, m->is_private ? "p" : "");
